@@ -684,11 +684,15 @@ def atomic_write_file(filename: Filename, data):
     temp_filename = Filename("%s.tmp.%s" % (filename, os.getpid(),))
     write_file(temp_filename, data)
     try:
-        st = os.stat(str(filename)) # OSError if file didn't exit before
+        st = os.stat(str(filename))
+    except FileNotFoundError:
+        st = None # file didn't exist before
+    if st is not None:
         os.chmod(str(temp_filename), st.st_mode)
-        os.chown(str(temp_filename), -1, st.st_gid) # OSError if not member of group
-    except OSError:
-        pass
+        try:
+            os.chown(str(temp_filename), -1, st.st_gid)
+        except OSError:
+            pass # not member of group
     os.rename(str(temp_filename), str(filename))
 
 
